@@ -528,4 +528,61 @@ func runC20(c *mon.Ctx) {
 		c20CompareKeyed(cs, sp, sim.Encode(doc, sim.RawLevel), false, kind)
 		c.Count("signedshape."+kind, 1)
 	}
+
+	// (d) a root the IdP signed, to which somebody afterwards adds namespace declarations that nothing uses, their
+	// prefixes spelled like the reported attributes (xmlns:ID="..."): under exclusive canonicalisation the signature
+	// still verifies, so the message is accepted - with the values the IdP signed
+	nd := c.N(600, 30000)
+	for k := 0; k < nd; k++ {
+		cs := c.Begin("nsdecl-added-after-signing", k)
+		if cs == nil {
+			continue
+		}
+		r := cs.Rand()
+		signer := w.IdP[r.IntN(len(w.IdP))]
+		logout := k%3 == 0
+		var doc string
+		var err error
+		if logout {
+			l := sim.GenuineLogout(w.Env, true)
+			l.ID = sim.S(fmt.Sprintf("_l%08x", r.Uint32()))
+			l.Sig = randSigSpec(r, signer, true, false)
+			doc, err = sim.BuildLogout(l, sim.PlainStyle())
+		} else {
+			rec := sim.GenuineResponse(w.Env, 1)
+			rec.ID = sim.S(fmt.Sprintf("_r%08x", r.Uint32()))
+			rec.Sig = randSigSpec(r, signer, true, false)
+			doc, err = sim.BuildResponse(rec, sim.PlainStyle())
+		}
+		if err != nil {
+			cs.Inconclusive("simulator-error")
+			continue
+		}
+		decl := ""
+		for _, nm := range [][2]string{{"ID", "_evil"}, {"InResponseTo", "_attacker_chosen"}, {"Destination", "https://other-tenant.example.test/acs"}, {"Version", "1.1"}, {"Issuer", "https://evil-idp.example.test/"}} {
+			if r.IntN(2) == 0 {
+				decl += ` xmlns:` + nm[0] + `="` + nm[1] + `"`
+			}
+		}
+		if decl == "" {
+			decl = ` xmlns:ID="_evil"`
+		}
+		i := strings.Index(doc, " ") // end of the root's name
+		j := strings.Index(doc, ">") // end of the root's start tag
+		where := "after"
+		if i < 0 || j < 0 {
+			cs.Inconclusive("simulator-error")
+			continue
+		}
+		if r.IntN(2) == 0 {
+			doc, where = doc[:i]+decl+doc[i:], "before"
+		} else {
+			doc = doc[:j] + decl + doc[j:]
+		}
+		cs.Desc("logout=%v declarations%s written %s the real attributes, sig=%s", logout, decl, where, "root")
+		cs.Input([]byte(doc))
+		sp, _, _ := NewSP(w.Now, signer)
+		cs.Nontrivial(cs.Description())
+		c20CompareKeyed(cs, sp, sim.Encode(doc, sim.RawLevel), logout, "nsdecl-added-after-signing")
+	}
 }
